@@ -1,13 +1,13 @@
 #!/venv/bin/python
 """Install a round of minimal pairs written by sub-agents (/root/r<N>/<agent><A|B>[_ok]): breaking members into /verif/seeded/<prop><letter>,
 their behaviour-preserving twins into /verif/seeded_equiv/<prop><prefix>{A,B}.  First-pass results /root/r<N>res, final /root/r<N>res2.
-usage: install_r6.py [round]     round 6 (default): letters J,K / prefix U;  round 7: letters L,M / prefix V"""
+usage: install_r6.py [round]     round 6 (default): letters J,K / prefix U;  round 7: letters L,M / prefix V;  round 8: letters N,P / prefix W"""
 import json, re, shutil, subprocess, sys
 from pathlib import Path
 
 VERIF = Path("/verif")
 ROUND = int(sys.argv[1]) if len(sys.argv) > 1 else 6
-LETTERS, PREFIX = {6: ({"A": "J", "B": "K"}, "U"), 7: ({"A": "L", "B": "M"}, "V")}[ROUND]
+LETTERS, PREFIX = {6: ({"A": "J", "B": "K"}, "U"), 7: ({"A": "L", "B": "M"}, "V"), 8: ({"A": "N", "B": "P"}, "W")}[ROUND]
 SRC, RES1, RES2 = Path(f"/root/r{ROUND}"), Path(f"/root/r{ROUND}res"), Path(f"/root/r{ROUND}res2")
 
 
